@@ -235,4 +235,24 @@ CANARIES: Dict[str, Dict[str, Any]] = {
         old='Parameter(torch.ones(normalized_shape), "norm")', new='Parameter(torch.ones(normalized_shape), "weight")',
         job="mod:RMSNorm[affine=True,shape=int]", expect=["parameter_weight_mup_type"],
     ),
+    "deepcopy-hook-not-reinstalled": dict(
+        props=["C09"], file="unit_scaling/parameter.py", module="unit_scaling.parameter",
+        old="    result.__deepcopy__ = _parameter_deepcopy.__get__(result)\n", new="",
+        job="c09:_parameter_deepcopy", expect=["invariant_deepcopy_hook_installed"],
+    ),
+    "deepcopy-drops-depth": dict(
+        props=["C09"], file="unit_scaling/parameter.py", module="unit_scaling.parameter",
+        old="    result.mup_scaling_depth = self.mup_scaling_depth\n", new="    result.mup_scaling_depth = None\n",
+        job="c09:_parameter_deepcopy", expect=["same_mup_scaling_depth"],
+    ),
+    "reduce-ex-filters-tags": dict(
+        props=["C09"], file="unit_scaling/parameter.py", module="unit_scaling.parameter",
+        old='if k not in ["__deepcopy__", "__reduce_ex__"]', new='if k not in ["__deepcopy__", "__reduce_ex__", "mup_scaling_depth"]',
+        job="c09:_parameter_reduce_ex", expect=["same_mup_scaling_depth", "pickled_state_keeps_the_tags"],
+    ),
+    "rebuild-forgets-hooks": dict(
+        props=["C09"], file="unit_scaling/parameter.py", module="unit_scaling.parameter",
+        old="    p.__reduce_ex__ = _parameter_reduce_ex.__get__(p)\n    return p\n\n\ndef _parameter_reduce_ex", new="    return p\n\n\ndef _parameter_reduce_ex",
+        job="c09:_parameter_reduce_ex", expect=["invariant_reduce_ex_hook_installed"],
+    ),
 }
